@@ -183,6 +183,40 @@ func monitor(rep *emit.Report, c *caseRun) {
 				addContrib(s.obs.HeadBefore, int64(s.ev.Round), c.t.id(s.obs.PrevBytes), s.ev.Claim, s.obs.SigBytes, s.obs.PrevBytes)
 			}
 		}
+		// C05 / C07: the node syncs with the group it is a member of NOW: every peer it asks is a member
+		// of the live group (after a resharing: the new one -- leavers may be gone for good), and when
+		// every peer fails all the other members have been asked
+		if len(s.obs.Syncs) > 0 && s.obs.LiveBefore >= 0 && s.obs.LiveBefore == s.obs.LiveAfter {
+			lg := w.Epochs[s.obs.LiveBefore]
+			own := ""
+			if n := lg.node(w.meIn(lg)); n != nil {
+				own = n.Address()
+			}
+			members := map[string]bool{}
+			for _, n := range lg.Group.Nodes {
+				if n.Address() != own {
+					members[n.Address()] = true
+				}
+			}
+			asked := map[string]bool{}
+			for _, sc := range s.obs.Syncs {
+				asked[sc.Peer] = true
+				if !members[sc.Peer] {
+					rep.Fail("C05-sync-asks-a-peer-outside-the-live-group", fmt.Sprintf("sync request sent to %s, which is not a member of the group the node is in (epoch %d)", sc.Peer, s.obs.LiveBefore), in)
+					rep.Fail("C07-sync-asks-a-peer-outside-the-live-group", fmt.Sprintf("after the transition a sync request went to %s, not a member of the live group (epoch %d)", sc.Peer, s.obs.LiveBefore), in)
+					break
+				}
+			}
+			if !s.syncOnAfter && !c.steps[max(i-1, 0)].syncOnAfter {
+				for m := range members {
+					if !asked[m] {
+						rep.Fail("C05-sync-skips-a-live-member", fmt.Sprintf("every peer refused, yet member %s of the live group (epoch %d) was never asked", m, s.obs.LiveBefore), in)
+						rep.Fail("C07-sync-skips-a-live-member", fmt.Sprintf("every peer refused, yet member %s of the live group (epoch %d) was never asked", m, s.obs.LiveBefore), in)
+						break
+					}
+				}
+			}
+		}
 		for _, p := range s.obs.Puts {
 			// C01: every stored beacon verifies
 			if !p.Verifies {
